@@ -184,11 +184,32 @@ func runC09(cfg *config) *Report {
 				if w.Conv == "lit" || w.Conv == "opaque" || strings.HasPrefix(w.Src, "reserved") {
 					continue
 				}
-				for _, cl := range classes {
-					fv, ok := cl.mk(w)
-					if !ok {
-						continue
+				type namedVal struct {
+					name string
+					fv   FV
+				}
+				var vals []namedVal
+				for _, c0 := range classes {
+					if fv, ok := c0.mk(w); ok {
+						vals = append(vals, namedVal{c0.name, fv})
 					}
+				}
+				// every VALID code of a coded member as well: a file may be accepted for writing with a value its reader
+				// treats differently (container-level rules keyed on a code)
+				if info := fieldInfos(L)[w.Src]; info != nil {
+					if kindOfConv(w.Conv) == 'S' {
+						for _, sv := range info.strTable {
+							vals = append(vals, namedVal{"code:" + sv, FV{K: 'S', S: []byte(sv)}})
+						}
+					}
+					if kindOfConv(w.Conv) == 'I' {
+						for _, iv := range info.intTable {
+							vals = append(vals, namedVal{fmt.Sprintf("code:%d", iv), FV{K: 'I', I: iv}})
+						}
+					}
+				}
+				for _, cl := range vals {
+					fv := cl.fv
 					key := recName + "." + w.Src + "/" + cl.name
 					if seen[fmt.Sprint(variant, fi%2, key)] && cfg.tier != "thorough" {
 						continue
